@@ -181,6 +181,17 @@ PROPS["C20"] = Prop(
 )
 PARAMS["C20"] = {"rule": "list form: every element count 0..=64, 100, 128, 255, 256 x {arr!, box_arr!} x {Copy, non-Copy elements} with index-logging element expressions, trailing commas 0/1/2 at small and boundary counts; both repeat forms x N in {0..8,16,17,31,32,33,64,97,255,256,1000,1023,1024} x {arr!, box_arr! (Copy and Clone-only elements)}: type-level length, values, evaluation log. Const positions: each list count and each repeat length as a const item (plus static and const fn bodies), compiled against the crate and compared with the literal at run time."}
 
+PROPS["C18"] = Prop(
+    "C18", ["GA.Props.C18"],
+    [Engine("constapi", scen.constapi, runner=corpora.constapi_runner, sig=lambda l: " ".join(t for t in l.split() if t.split("=")[0] in ("fn", "ty")))],
+    trusted=[KERNEL, TRANSLATOR, HARNESS,
+             "modelled, not verified: the compile-time interpreter's judgement is reduced to (a) references stay inside the allocation they were derived from, (b) a &mut is derived from the unique borrow, (c) documented panics, (d) only const fns are called; rustc's actual interpreter is the implementation side of the correspondence (tools/corpus.py compiles every generated const item against the crate and runs the value comparison)",
+             "arr! and const_default in const positions are decided by C20 and C19"],
+    assumptions=["element sizes enter only through the const_transmute size check; alignment is C01's result"],
+    nontrivial=lambda s, impl: " n=0 " not in s,
+)
+PARAMS["C18"] = {"rule": "one const item (final value validated by the interpreter, contents compared with the same call at run time and with natively computed expectations) per const fn x length x argument: chunks_from_slice(_mut) for N in {0..5,7,8} x every slice length 0..=3N+2 (N in {16,17,33}: boundary lengths in quick, all in thorough); from_slice/from_mut_slice/try_ forms incl. the documented panics (expected E0080 'evaluation panicked'); slice_from_chunks(_mut), from_chunks(_mut), into_chunks(_mut) for N in {0..5,7,8} x 0..=3 chunks; from_array/into_array, as_slice, as_mut_slice (written through), uninit+assume_init, len over the lattice up to 1024; element types u8, u32, (u8,u16), (); every mutable form writes through the result."}
+
 PROPS["C17"] = Prop(
     "C17", ["GA.Props.C17"],
     [Engine("serde", scen.serde, sig=lambda l: l.split()[0] + "/" + ("script" if "steps=" in l else "fmt"))],
